@@ -145,6 +145,33 @@ func runC17(c *bx.Ctx) {
 			}
 		}
 	}
+	// RawPacket values holding arbitrary (also malformed) bytes: Header() and String() are total
+	c.Space("raw-packet-accessors")
+	for a := 0; a < 256; a++ {
+		if !c.MineBlock(0) {
+			continue
+		}
+		for _, tail := range [][]byte{nil, {0}, {0, 1}, {200, 0, 1}, {200, 0, 1, 9, 9, 9, 9}, {0xff, 0xff, 0xff}} {
+			b := append([]byte{byte(a)}, tail...)
+			if a == 0 && tail == nil {
+				b = nil
+			}
+			c.Add(1)
+			r := rtcp.RawPacket(b)
+			msg, pan := bx.Guard(func() {
+				_ = r.Header()
+				_ = r.String()
+				_ = r.MarshalSize()
+				_ = (&r).DestinationSSRC()
+			})
+			c.T(4)
+			if pan {
+				c.Report("C17/RawPacket/accessor-panics", "Header / String / MarshalSize / DestinationSSRC of a RawPacket panic: "+msg, bx.Replay{Entry: "RawPacket accessors", InputHex: bx.Hex(b), Expected: "results", Observed: "panic: " + msg})
+				continue
+			}
+			c.NT()
+		}
+	}
 	// REMB decoded from every exponent x boundary mantissas
 	c.Space("remb-wire")
 	var ms []uint32
